@@ -122,7 +122,7 @@ func (r Promise[T]) dispatchOrAddCallback(cb onCompleteFunc[T]) {
 		return
 
 	case []onCompleteFunc[T]:
-		if r.status.CompareAndSwap(ap, append(status, cb)) {
+		if r.status.CompareAndSwap(ap, append(status[:len(status):len(status)], cb)) {
 			return
 		}
 		r.dispatchOrAddCallback(cb)
